@@ -134,7 +134,7 @@ func init() {
 		run := func(text string) ([]int, error, *lx.Panic) { return runVia(text, 0) }
 		fam := &vf.Family{
 			Name:    "loop-shapes",
-			Bounds:  "every nesting of depth 0..2 (quick) / 0..3 (thorough) of the 10 tail-position constructs (do-last, let-body-last, let with empty / list-form bindings, if-then, if-else, cond clause, and-last, or-last, fn-body-last) around the recursive call x {self, 2-way mutual, 3-way mutual recursion} x 3 definition routes (fn forms written in the text; functions defined through a defn-style macro; whole program as an AST without source positions); iteration counts 3, 5, 50 (host stack depth at every iteration), thorough: additionally 20000 iterations under a 1 MiB stack limit",
+			Bounds:  "every nesting of depth 0..2 (quick) / 0..3 (thorough) of the 10 tail-position constructs (do-last, let-body-last, let with empty / list-form bindings, if-then, if-else, cond clause, and-last, or-last, fn-body-last) around the recursive call x {self, 2-way mutual, 3-way mutual recursion} x 3 definition routes (fn forms written in the text; functions defined through a defn-style macro; whole program as an AST without source positions); iteration counts 3, 5, 50 (host stack depth at every iteration); the plain recursions and every single construct around a self call also run 150 000 iterations to completion (thorough: all shapes of nesting depth <=1, 2 000 000 iterations), thorough: additionally 20000 iterations under a 1 MiB stack limit",
 			Setup:   setup,
 			Timeout: 300e9,
 			N:       func(t string) int64 { tier = t; return int64(len(shapesOf())) },
@@ -170,6 +170,21 @@ func init() {
 					r.Exec(1)
 					if p != nil || err != nil || len(d) != 20001 {
 						r.Violation("long tail-recursive loop does not complete", fmt.Sprintf("%s: err=%v panic=%v probes=%d", s.names(), err, p, len(d)))
+						return
+					}
+				}
+				// loops of any length complete: a long run for the shapes of nesting depth <= 1 (the depth probe
+				// is switched off: only completion counts)
+				if (tier == "thorough" && len(s.wraps) <= 1) || len(s.wraps) == 0 || (len(s.wraps) == 1 && s.funcs == 1) {
+					long := 150000
+					if tier == "thorough" {
+						long = 2000000
+					}
+					text := strings.Replace(s.program(long, false), "(depth!)", "", -1)
+					_, err, p := run(text)
+					r.Exec(1)
+					if p != nil || err != nil {
+						r.Violation("long tail-recursive loop does not complete", fmt.Sprintf("%s n=%d: err=%v panic=%v", s.names(), long, err, p))
 						return
 					}
 				}
